@@ -25,6 +25,8 @@ RULE = (
     'the upper bound and has a later time of day than the bound (part find), '
     'or two appends share a journal file (parts append/complete). Distinct = '
     'SHA-1 of the canonical case JSON.'
+    ' Part append may inject one OSError into the n-th open() of one append,'
+    ' which is then retried. '
 )
 ASSUMPTIONS = [
     'query bounds are timezone-aware UTC datetimes (what schedule.complete '
